@@ -552,7 +552,8 @@ func (a Int) M__rshift__(other Object) (Object, error) {
 
 func (a Int) M__rrshift__(other Object) (Object, error) {
 	if b, ok := convertToInt(other); ok {
-		if b < 0 {
+		// here a is the shift count: b >> a
+		if a < 0 {
 			return nil, negativeShiftCount
 		}
 		// Can't overflow
